@@ -40,6 +40,11 @@ var c09Bad = []func(name string) string{
 	func(n string) string { return "  " + n + ": 1\u3000" },     // … by an ideographic space
 	func(n string) string { return "  " + n + ": 2.5\f" },       // … by a form feed
 	func(n string) string { return "  " + n + ":\u00a07" },      // no-break space instead of the blank before the value
+	// long lines that are mostly multi-byte characters (more than 200 bytes in fewer than 200 characters, and more of both)
+	func(n string) string { return "  " + strings.Repeat("ж", 130) + n + ": 1oo" },
+	func(n string) string { return "  " + strings.Repeat("茶", 80) + n + " " + strings.Repeat("米", 30) },
+	func(n string) string { return "  " + n + ": " + strings.Repeat("🍵", 60) },
+	func(n string) string { return "  " + strings.Repeat("щ", 700) + n + ": x1" },
 }
 
 // plant inserts k malformed lines below the first heading; returns the new text and the (1-based position, raw line) list in file order.
